@@ -230,7 +230,8 @@ Proof.
         destruct v as [z|]; [|destruct (cl_allow_none cl)]; inversion H; subst;
           try (etransitivity; [apply pop_frame_fields|reflexivity]);
           apply rollback_frame_fields.
-      - inversion H; subst. apply pop_frame_fields. }
+      - destruct v as [z|]; [|destruct (cl_allow_none cl)]; inversion H; subst;
+          try apply pop_frame_fields; apply rollback_frame_fields. }
     exists (l ++ [i]). split.
     + rewrite Hlog, La. now rewrite <- app_assoc.
     + intros Hin. apply in_app_or in Hin as [Hin|[Hin|[]]]; [tauto|congruence].
